@@ -26,7 +26,8 @@ BIT = {"C07-comma-after-skipped-first-null-member": 1, "C07-negative-float-mangl
 TRUSTED = [
     "modelled, not verified: encoding/json's tokenizer (Json/Lexer.v) and strconv.ParseInt/ParseFloat/AppendFloat "
     "(Json/Number.v, exact-integer stand-ins) are Gallina re-implementations validated differentially by this check; "
-    "the round-trip theorems take the float round-trip of the stand-ins as an explicit premise",
+    "the round-trip theorems take the float round-trip of the stand-ins as an explicit premise (floats_ok); the premise is computable "
+    "(floats_okb, theorem float_premise_is_computable) and this check evaluates it on every generated text that may hold a float",
     "the theorems are about canon = the code after fixes/C07-*.diff; the unfixed tree's deviations are the _refuted theorems "
     "and findings/C07.json",
     "oracle P: python json + the README rules transcribed in tools/props/c07.py (spec_canon)",
@@ -770,6 +771,25 @@ def run(c):
     go = [res(o) for o in run_go([line(t) for t in texts])]
     md = [res(o) for o in balanced(run_oracle, [line(t, flags) for t in texts])]
     mf = md if flags == FIXED else [res(o) for o in balanced(run_oracle, [line(t, FIXED) for t in texts])]
+
+    # the computable float premise of the round-trip theorems (floats_okb) on every text that may hold a float
+    prem_idx = [i for i, (st_, t) in enumerate(cases) if st_ in ("decimal-grid", "decimal-random", "nested-3-syntaxes")]
+    prem = balanced(run_oracle, ["c07 premise " + w(bytes(cases[i][1])) for i in prem_idx])
+    prem_held = 0
+    for i, o in zip(prem_idx, prem):
+        if o.strip() == "1":
+            prem_held += 1
+        elif o.strip() == "0":
+            t = cases[i][1]
+            c.report("premise of the round-trip theorems fails on %r: the float text written by the model is not read back as the same float "
+                     "(strconv stand-in of Json/Number.v)" % (t,), {"theorem": "rocq/Props/C07.v floats_ok", "case": t.decode("latin1")}, no_input=True)
+    c.count("float-premise-evaluated", len(prem_idx))
+    c.cov["float_premise"] = {"texts_evaluated": len(prem_idx), "held": prem_held,
+                              "rejected_or_out_of_range": len(prem_idx) - prem_held,
+                              "meaning": "floats_okb (parse text) = true: the premise floats_ok of canon_parses_back_to_norm / canon_is_idempotent / "
+                                         "canon_injective_on_content holds of this input (theorem float_premise_is_computable)"}
+    if prem_held < len(prem_idx) // 3:
+        c.report("float premise evaluated on too few accepted texts: %d of %d" % (prem_held, len(prem_idx)), {"machinery": "premise"}, no_input=True)
 
     # idempotence: canonicalise Go's outputs again
     outs = sorted({g[1] for g in go if g[0] == "ok"})
